@@ -95,7 +95,7 @@ func init() {
 		cfgs := []cfg{{1, 1}, {2, 1}, {2, 2}, {4, 2}, {4, 4}, {8, 4}, {8, 16}, {16, 8}, {16, 16}, {64, 16}, {64, 2}, {3, 16}}
 		per := 4000
 		if d.Thorough() {
-			per = 40000
+			per = 100000
 		}
 		for i, c := range cfgs {
 			if !d.Mine(i) {
